@@ -197,6 +197,21 @@ theorem noswap_b (L : Nat) (hL : L ≤ 31) (x : Array Nat) (hx : x.size = 2^L) :
 example : nttNoswap bOps primitiveRoot #[1, 4, 0, 0] =
     some #[5, 18446744069414584318, 1125899906842625, 18445618169507741698] := by decide +kernel
 
+/-- Base field: on canonical input every function returns canonical values (`< P`), so together with the theorems
+    above the outputs are determined as natural numbers, not only modulo `P`. -/
+theorem outputs_canonical (x : Array Nat) (hx : Canon x) :
+    (∀ y, ntt bOps primitiveRoot x = some y → Canon y) ∧
+    (∀ y, intt bOps primitiveRoot x = some y → Canon y) ∧
+    (∀ y, nttNoswap bOps primitiveRoot x = some y → Canon y) ∧
+    (∀ y, inttNoswap bOps primitiveRoot x = some y → Canon y) ∧
+    (∀ y, bitreverseOrder x = some y → Canon y) ∧
+    (∀ y, unscale bOps x = some y → Canon y) :=
+  transforms_canon x hx
+example : Canon #[0, 1, 18446744069414584320] := by
+  intro i h
+  have : i = 0 ∨ i = 1 ∨ i = 2 := by simp at h; omega
+  rcases this with rfl | rfl | rfl <;> simp [P]
+
 /-- **Extension field: every transform acts coordinatewise** (all twiddles are base-field scalars), so the four
     theorems above hold for each of the three coordinate vectors of an extension-field vector. -/
 theorem x_transforms_coordinatewise (k : Nat) (x : Array X3) :
